@@ -201,6 +201,8 @@ class FullscreenWindow(BaseWindow, ContextManager["FullscreenWindow"]):
 
         # rows which we have content for and don't require scrolling
         for row, line in enumerate(array):
+            if row >= height:
+                break  # array too tall: render only the renderable portion
             current_lines_by_row[row] = line
             if line == self._last_lines_by_row.get(row, None):
                 continue
